@@ -76,21 +76,10 @@ Theorem C18_itk_mha_read :
 Proof. exact itk_mha_read. Qed.
 Print Assumptions C18_itk_mha_read.
 
-(* 6. NIfTI.  FULL STATEMENT (false): write_nifti D x = Some f /\ read_nifti f = Some x.  On this tree the writer
-      produces no file at all (a D x D matrix is passed where nibabel requires 4 x 4); the reader is exact on
-      ITK-written scalar files and rejects ITK's vector layout. *)
-Theorem C18_nifti_write_refuted :
-  forall (K : fld) (A : Type) (D : nat) (x : image K A), D = 2%nat \/ D = 3%nat -> write_nifti D x = None.
-Proof. exact nifti_write_fails. Qed.
-Print Assumptions C18_nifti_write_refuted.
-
-Theorem C18_nifti_read_itk_scalar_partial :
-  forall (K : fld), is_field K -> forall (A : Type) (D : nat) (x : image K A),
-  D = 2%nat \/ D = 3%nat -> wf_image D x -> i_chan x = 1%nat -> In (i_type x) torch_types ->
-  Forall (fun s => s <> 0) (i_spacing x) ->
-  read_nifti (itk_write_nii D x) = Some x.
-Proof. exact nifti_read_itk_scalar. Qed.
-Print Assumptions C18_nifti_read_itk_scalar_partial.
+(* 6. NIfTI.  FULL (theorems C18_nifti_roundtrip and C18_nifti_read_itk near the end of this file): the native round trip
+      write_nifti -> read_nifti is exact and files in ITK's scalar and vector layouts are read back exactly, D = 2, 3, every
+      channel count, size, torch element type, non-zero spacing.  They are instances of the conditional forms below (which
+      hold for every layout and are what survives if a writer / reader branch breaks again). *)
 
 (* conditional forms (what a repaired writer / reader has to satisfy; they hold for every layout, channel count and size):
    reading inverts the LPS -> RAS affine for every accepted ITK layout, and the native round trip is exact whenever the
@@ -116,11 +105,7 @@ Theorem C18_nifti_roundtrip_conditional :
 Proof. exact nifti_roundtrip_cond. Qed.
 Print Assumptions C18_nifti_roundtrip_conditional.
 
-Theorem C18_nifti_read_itk_vector_refuted :
-  forall (K : fld) (A : Type) (D : nat) (x : image K A),
-  D = 2%nat \/ D = 3%nat -> (2 <= i_chan x)%nat -> read_nifti (itk_write_nii D x) = None.
-Proof. exact nifti_read_itk_vector_fails. Qed.
-Print Assumptions C18_nifti_read_itk_vector_refuted.
+
 
 (* 7. element types: every torch element type is written under a MetaImage name that reads back as the same
       type (library reader and ITK naming) and passes through SimpleITK unchanged; every promotion any reader
@@ -171,6 +156,26 @@ Print Assumptions C18_payload_model_matches_traces.
 Theorem C18_align_corners_passthrough : align_corners_passthrough_ok = true.
 Proof. exact align_corners_passthrough_holds. Qed.
 Print Assumptions C18_align_corners_passthrough.
+
+(* 11. suffix-based dispatch of write_image / read_image: same backend on both sides for every suffix, the property's formats
+       on the backends the model assumes *)
+Theorem C18_dispatch_consistent : dispatch_ok = true.
+Proof. exact dispatch_holds. Qed.
+Print Assumptions C18_dispatch_consistent.
+
+Theorem C18_nifti_roundtrip :
+  forall (K : fld), is_field K -> forall (A : Type) (D : nat) (x : image K A),
+  D = 2%nat \/ D = 3%nat -> wf_image D x -> In (i_type x) torch_types -> Forall (fun s => s <> 0) (i_spacing x) ->
+  exists f, write_nifti D x = Some f /\ read_nifti f = Some x.
+Proof. exact nifti_roundtrip. Qed.
+Print Assumptions C18_nifti_roundtrip.
+
+Theorem C18_nifti_read_itk :
+  forall (K : fld), is_field K -> forall (A : Type) (D : nat) (x : image K A),
+  D = 2%nat \/ D = 3%nat -> wf_image D x -> In (i_type x) torch_types -> Forall (fun s => s <> 0) (i_spacing x) ->
+  read_nifti (itk_write_nii D x) = Some x.
+Proof. exact nifti_read_itk. Qed.
+Print Assumptions C18_nifti_read_itk.
 
 (* non-vacuity: a rotated anisotropic 2-D grid with 2 channels is well-formed, its direction is orthonormal,
    the channel move really permutes, and the SimpleITK round trip returns it *)
